@@ -26,6 +26,33 @@ def clo(prog, t):
     return None
 
 
+def _capture_chain(prog, body, name):
+    """value (term in the defining body) of a captured variable, followed through nested closures"""
+    seen = 0
+    while body is not None and seen < 6:
+        seen += 1
+        parent = prog.get(body.parent) if body.parent else None
+        # closures nest: the direct parent is the body whose path is the prefix
+        par_path = body.path.rsplit("::{closure", 1)[0]
+        parent = prog.get(par_path)
+        if parent is None:
+            return None
+        pres = Resolver(parent)
+        for i, j, s in parent.stmts():
+            r = s["r"] if s["k"] == "assign" else None
+            if r and r["k"] == "agg" and r["ak"] == "closure" and r["name"] == body.path:
+                names = [body.upvars.get(k) for k in range(len(r["ops"]))]
+                if name in names:
+                    v = pres.operand(r["ops"][names.index(name)])
+                    if v[0] == "upvar":
+                        body, name = parent, v[1]
+                        break
+                    return v
+        else:
+            return None
+    return None
+
+
 def predict_rule(ck, prog):
     rule, inst = "E2a-label-decode", "BaseNaiveBayes::predict returns an element of distribution.classes()"
     try:
@@ -33,38 +60,41 @@ def predict_rule(ck, prog):
     except AnchorError as e:
         ck.violation(rule, inst, "BaseNaiveBayes::predict", "", expected="anchor exists", found=f"anchor vanished: {e}")
         return
-    res = Resolver(b)
-    ret = res.local(0)
     site = f"{b.loc[0]}:{b.loc[1]}"
+    bodies, stack = [b], list(prog.closures_of.get(b.path, []))
+    while stack:
+        c = stack.pop()
+        bodies.append(c)
+        stack.extend(prog.closures_of.get(c.path, []))
+    hits = []
+    for bd in bodies:
+        rs = Resolver(bd)
+        for bb, t in bd.calls():
+            f = t.get("f")
+            if f and f["path"].endswith("Iterator::max_by"):
+                hits.append((bd, rs, bb, rs.operand(t["args"][0]), t))
     problems = []
-    maps = [s for s in subterms(ret) if s[0] == "call" and s[1].endswith("Iterator::map")]
-    outer = clo(prog, maps[0][2][1]) if maps else None
-    if not outer:
-        ck.violation(rule, inst, b.path, site, expected="predictions = map(rows, closure)", found=render(ret)[:200])
+    if len(hits) != 1:
+        ck.violation(rule, inst, b.path, site, expected="one arg-max (max_by) over the candidate classes", found=f"{len(hits)} max_by calls")
         return
-    # the captured label table
-    caps = dict(zip([outer.upvars.get(i) for i in range(len(maps[0][2][1][2]))], maps[0][2][1][2]))
-    r1 = Resolver(outer).local(0)
-    # r1 = unwrap(max_by(map(enumerate(iter(^labels)), C), _)).0
-    ok = r1[0] == "field" and r1[2] == "0"
-    mb = [s for s in subterms(r1) if s[0] == "call" and s[1].endswith("Iterator::max_by")]
-    inner_maps = [s for s in subterms(r1) if s[0] == "call" and s[1].endswith("Iterator::map")]
-    en = [s for s in subterms(r1) if s[0] == "call" and s[1].endswith("Iterator::enumerate")]
-    if not (ok and mb and inner_maps and en):
-        problems.append(f"per-row result `{render(r1)[:160]}` is not `.0` of max_by(map(enumerate(labels)))")
+    bd, rs, bb, recv, t = hits[0]
+    site = bd.where(bb)
+    en = [s for s in subterms(recv) if s[0] == "call" and s[1].endswith("Iterator::enumerate")]
+    mp = [s for s in subterms(recv) if s[0] == "call" and s[1].endswith("Iterator::map")]
+    if not en or not mp:
+        problems.append(f"arg-max receiver `{render(recv)[:120]}` is not map(enumerate(labels), ..)")
     else:
         src = en[0][2][0]
         while src[0] == "call" and src[1].endswith(("::iter", "::deref", "::into_iter")) and len(src[2]) == 1:
             src = src[2][0]
-        lab = caps.get(src[1]) if src[0] == "upvar" else src
+        lab = _capture_chain(prog, bd, src[1]) if src[0] == "upvar" else src
         if not (lab is not None and lab[0] == "call" and lab[1].endswith("NBDistribution::classes")):
             problems.append(f"the enumerated table `{render(lab)[:80] if lab else render(src)[:80]}` is not distribution.classes()")
-        inner = clo(prog, inner_maps[0][2][1])
+        inner = clo(prog, mp[0][2][1])
         if not inner:
             problems.append("the candidate mapper is not a closure literal")
         else:
             r2 = Resolver(inner).local(0)
-            # tuple{item.1 (label), score(item.0)}
             if not (r2[0] == "agg" and r2[1] == "tuple" and len(r2[2]) == 2):
                 problems.append(f"candidate `{render(r2)[:120]}` is not (label, score)")
             else:
@@ -74,21 +104,41 @@ def predict_rule(ck, prog):
                 else:
                     item = lbl[1]
                     idx = ("field", item, "0")
-                    calls = [s for s in subterms(score) if s[0] == "call" and s[1].endswith(("NBDistribution::log_likelihood", "NBDistribution::prior"))]
-                    names = sorted(c[1].split("::")[-1] for c in calls)
-                    if "log_likelihood" not in names:
-                        problems.append(f"score uses {names}: the likelihood of the candidate class is missing")
-                    for c in calls:
-                        if c[2][1] != idx:
-                            problems.append(f"{c[1].split('::')[-1]} is evaluated at `{render(c[2][1])[:60]}`, not at the index of the candidate's own label")
-                    # hoisted per-class tables (e.g. precomputed log priors) must be read at the candidate's own index too
+                    # the candidate's own index is what the score is computed from: every use of the item inside the
+                    # score is its index component, passed on unchanged (not under arithmetic)
                     for s in subterms(score):
-                        if s[0] == "idx" and s[2] != idx and any(x[0] == "arg" for x in subterms(s[2])):
-                            problems.append(f"per-class table read at `{render(s[2])[:60]}`, not at the index of the candidate's own label")
+                        if s[0] == "field" and s[1] == item and s[2] != "0":
+                            problems.append(f"the score reads `{render(s)[:40]}` of the candidate item")
+                        if s[0] == "bin" and (s[2] == idx or s[3] == idx):
+                            problems.append(f"the score shifts the candidate's class index: `{render(s)[:60]}`")
+                    if not any(s == idx for s in subterms(score)):
+                        problems.append("the score does not depend on the candidate's class index")
+    # per-class quantities are evaluated at one and the same class index wherever they are computed
+    for bd2 in bodies:
+        r3 = Resolver(bd2)
+        ixs = set()
+        for bb2, t2 in bd2.calls():
+            f2 = t2.get("f")
+            if f2 and f2["path"].endswith(("NBDistribution::log_likelihood", "NBDistribution::prior")):
+                ixs.add(r3.operand(t2["args"][1]))
+        if len(ixs) > 1:
+            problems.append(f"log_likelihood and prior are evaluated at different class indices in {bd2.path.split('::')[-1]}: {[render(x)[:40] for x in ixs]}")
+    # the predicted value is component 0 (the label) of the arg-max winner
+    def is_winner_label(v):
+        while v[0] == "call" and v[1] in ("unwrap",) and v[2]:
+            v = v[2][0]
+        return v[0] == "field" and v[2] == "0" and any(s[0] == "call" and s[1].endswith("Iterator::max_by") for s in subterms(v[1]))
+    ok_out = is_winner_label(rs.local(0)) if bd.kind == "Closure" else False
+    for bb3, t3 in bd.calls():
+        f3 = t3.get("f")
+        if f3 and f3["path"].endswith("Vec::<T, A>::push") and is_winner_label(rs.operand(t3["args"][1])):
+            ok_out = True
+    if not ok_out:
+        problems.append("the per-row prediction is not component 0 (the label) of the arg-max winner")
     if problems:
         ck.violation(rule, inst, b.path, site, expected="prediction = label element of the arg-max candidate; score(label_i) uses index i", found="; ".join(problems))
     else:
-        ck.ok(rule, inst, b.path, site, render(r1)[:160])
+        ck.ok(rule, inst, b.path, site, render(recv)[:160])
 
 
 def classes_accessors(ck, prog):
